@@ -38,7 +38,7 @@ def run(ctx):
                 "non-empty final store; distinct by (history, world)")
     ctx.assumptions += ["request bodies outside the abstract grammar of Model/Handlers.v (VSUBSCRIBED, VLIST, several components with "
                         "one UID in one object, generated UIDs) are not generated", "vobject parsing of the generated bodies"]
-    ctx.prove()
+    ctx.prove(extra_targets=x_hcheck.EXTRA)
     state = {}
 
     def monitor(world, hist, outs, runner):
